@@ -1022,7 +1022,7 @@ func (e *cEnv) eval(x ast.Expr) (Val, error) {
 					}
 				}
 			}
-			if e.sym != nil {
+			if _, isIdx := n.X.(*ast.IndexExpr); isIdx || e.sym != nil {
 				// pointer to an element of an immutable table: the element, marked non-nil
 				if v, err := e.eval(n.X); err == nil && (v.K == VStruct || v.K == VList) {
 					v.I = 1
@@ -1180,7 +1180,7 @@ func (e *cEnv) eval(x ast.Expr) (Val, error) {
 				}
 			}
 		}
-		if tv, ok := info.Types[n]; ok && e.sym != nil {
+		if tv, ok := info.Types[n]; ok {
 			_, isArr := tv.Type.Underlying().(*types.Array)
 			_, isSl := tv.Type.Underlying().(*types.Slice)
 			if isArr || isSl {
